@@ -102,6 +102,11 @@ class Interp:
         if key in self.locals:
             return self.locals[key]
         if key not in self.env:
+            hook = self.callbacks.get('<atom>')
+            if hook is not None:
+                v = hook(self, key)
+                if v is not None:
+                    return v
             raise NeedAtom(key, kind)
         return self.env[key]
 
@@ -359,6 +364,19 @@ class Interp:
             raise BreakLoop()
         elif k == 'ContinueStmt':
             raise ContinueLoop()
+        elif k == 'CXXForRangeStmt' and '<range>' in self.callbacks:
+            # a range-for over a modelled container: the callback lists the elements
+            kids = n.get('c', [])
+            rng, decl, body = kids[0], kids[1], kids[2]
+            name = decl['decls'][0]['name']
+            for tok in self.callbacks['<range>'](self, rng):
+                self.locals[name] = tok
+                try:
+                    self.stmt(body)
+                except ContinueLoop:
+                    continue
+                except BreakLoop:
+                    break
         elif k in ('WhileStmt', 'ForStmt', 'DoStmt', 'CXXForRangeStmt'):
             raise Unsupported('loop')
         else:
